@@ -32,25 +32,46 @@ def not_pending(st, t):
     return tstate(st, t) != S_PENDING
 
 
-def task_rely(before, after):
-    """E3: task life cycle across a suspension"""
-    t = q()
+def task_wf(st):
+    """E3/A-PRIVATE, state invariants of asyncio tasks: the state is one of the three; an exception is held
+    only by a finished task.  Assumed of every state (the package never writes these attributes; the only
+    "writer" is the environment), re-proved where a contract havocs the attributes (fresh tasks of E2)."""
+    t = L.fresh('t', Ref)
     return [
-        ForAll([t], Implies(tstate(before, t) != S_PENDING,
+        ('E3-task-state-domain', L.FA([t], Or(tstate(st, t) == S_PENDING, tstate(st, t) == S_FINISHED,
+                                              tstate(st, t) == S_CANCELLED), patterns=[tstate(st, t)]),
+         {'_state'}),
+        ('E3-exception-only-if-finished', L.FA([t], Implies(truthy(st.f('_exception', t)),
+                                                            tstate(st, t) == S_FINISHED),
+                                               patterns=[st.f('_exception', t)]), {'_state', '_exception'}),
+        ('state-constants', And(state_consts_facts()), {'_state'}),
+    ]
+
+
+from pyvc import wf as _WF
+_WF.EXTRA_CLAUSES.append(task_wf)
+
+
+def task_rely(before, after, only_alive=False):
+    """E3: task life cycle across a suspension (only_alive: restricted to the objects that existed before,
+    for spans during which this activation itself allocates tasks)"""
+    t = q()
+    if only_alive:
+        g = lambda cond: And(before.alive(t), cond)
+    else:
+        g = lambda cond: cond
+    return [
+        ForAll([t], Implies(g(tstate(before, t) != S_PENDING),
                             And(tstate(after, t) == tstate(before, t),
                                 after.f('_exception', t) == before.f('_exception', t),
                                 after.f('_result', t) == before.f('_result', t),
                                 after.f('$finished_vt', t) == before.f('$finished_vt', t))),
                patterns=[tstate(after, t)]),
-        ForAll([t], Or(tstate(after, t) == S_PENDING, tstate(after, t) == S_FINISHED,
-                       tstate(after, t) == S_CANCELLED), patterns=[tstate(after, t)]),
-        ForAll([t], Implies(And(tstate(before, t) == S_PENDING, tstate(after, t) != S_PENDING),
+        ForAll([t], Implies(g(And(tstate(before, t) == S_PENDING, tstate(after, t) != S_PENDING)),
                             after.f('$finished_vt', t) >= vt(before)),
                patterns=[after.f('$finished_vt', t)]),
-        ForAll([t], Implies(truthy(after.f('_exception', t)), tstate(after, t) == S_FINISHED),
-               patterns=[after.f('_exception', t)]),
         # a task is cancelled only if somebody asked for it
-        ForAll([t], Implies(And(tstate(before, t) == S_PENDING, tstate(after, t) == S_CANCELLED),
+        ForAll([t], Implies(g(And(tstate(before, t) == S_PENDING, tstate(after, t) == S_CANCELLED)),
                             after.f('$cancel_req', t)), patterns=[tstate(after, t)]),
     ]
 
@@ -130,7 +151,7 @@ c.assumed = ['E1: asyncio.wait(fs, timeout, return_when) partitions fs into (don
              'without timeout it returns only when the return_when condition holds; it returns an empty done set / a '
              'non-empty pending set only when the timeout has elapsed; it never cancels members of fs; raises ValueError on an empty fs']
 c.requires('wait-set-not-empty', lambda c: (lambda x: Exists([x], c.pre.mem(c.a.fs, x)))(q()))
-c.modifies('$alive', '$elems')
+c.modifies('$alive', '$elems', '$setrole')
 
 
 def _wait_post(c):
@@ -145,7 +166,8 @@ def _wait_post(c):
     cur.g['$last-wait-vt'] = vt(cur)
     out = [
         Not(pre.alive(done)), Not(pre.alive(pend)), cur.alive(done), cur.alive(pend), done != pend,
-        isa['set'](done), isa['set'](pend),
+        isa['set'](done), isa['set'](pend), cur.f('$setrole', done) == 0, cur.f('$setrole', pend) == 0,
+        unchanged_field(pre, cur, '$setrole', lambda o: Or(o == done, o == pend)),
         ForAll([x], Select(FS, x) == Or(Select(D, x), Select(P, x)), patterns=[Select(D, x), Select(P, x), Select(FS, x)]),
         ForAll([x], Not(And(Select(D, x), Select(P, x))), patterns=[Select(D, x), Select(P, x)]),
         ForAll([x], Implies(Select(D, x), tstate(cur, x) != S_PENDING), patterns=[Select(D, x)]),
